@@ -63,6 +63,14 @@ def gen_table(rnd, poly=None, noff=None, n=None):
     }
 
 
+def _maybe_extra_meta(rnd, t):
+    """The table that is going to be REFUSED (other column set) may carry a metadata keyword the file does not have
+    (JokerSamples(..., run_id=...): 'additional keyword arguments are stored as metadata'): refusing it must still
+    leave the file byte-identical."""
+    if not t.get("extra_meta") and rnd.random() < 0.5:
+        t["extra_meta"] = {rnd.choice(["run_id", "observer", "note"]): "x%d" % rnd.randrange(1000)}
+
+
 def variant(rnd, base, kind):
     t = copy.deepcopy(base)
     t["gen_seed"] = rnd.getrandbits(40)
@@ -77,11 +85,13 @@ def variant(rnd, base, kind):
         c = rnd.choice(cand)
         t["cols"] = t["cols"] + [c]
         t["units"][c] = rnd.choice(UNIT_CHOICES[c])
+        _maybe_extra_meta(rnd, t)
         return t
     if kind == "missing-col":
         if len(t["cols"]) < 2:
             return None
         t["cols"] = t["cols"][:-1]
+        _maybe_extra_meta(rnd, t)
         return t
     if kind == "reorder":
         if len(t["cols"]) < 2:
@@ -256,7 +266,7 @@ def build_table(spec):
     g = tape.np_sub(spec["gen_seed"], "table")
     dt = np.float32 if spec["dtype"] == "f4" else np.float64
     t_ref = None if spec["t_ref"] is None else Time(spec["t_ref"], format="mjd", scale=spec.get("t_ref_scale", "tcb"))
-    s = tj.JokerSamples(t_ref=t_ref, poly_trend=spec["poly_trend"], n_offsets=spec["n_offsets"])
+    s = tj.JokerSamples(t_ref=t_ref, poly_trend=spec["poly_trend"], n_offsets=spec["n_offsets"], **(spec.get("extra_meta") or {}))
     data = {}
     for c in spec["cols"]:
         if c == "e":
